@@ -1,4 +1,4 @@
 #!/bin/bash
 # warms the build cache for the instrumented (overlay) build of engine E2
 cd "$(dirname "$0")" || exit 2
-./vsched.sh C19 shell -scenario S-trigger-r0 -show > /dev/null || exit 2
+./vsched.sh C19 shell -scenario S-trigger-A-r0 -show > /dev/null || exit 2
